@@ -33,6 +33,7 @@ XSetDefault(o) == \E k \in Keys, v \in HandlerIds : SetDefault(o, k, v)
 XDel(o)        == \E k \in Keys : Del(o, k)
 XPop(o)        == \E k \in Keys, d \in BOOLEAN : Pop(o, k, d)
 XUpdate(o)     == \E ps \in Pairs : Update(o, ps)
+XUpdateFail(o) == \E ps \in Pairs : UpdateFail(o, ps)
 XResolve(o)    == \/ \E ct \in CTypes, d \in Defaults : Resolve(o, ct, d, TRUE)
                   \/ \E cd \in NoRaiseCalls : Resolve(o, cd[1], cd[2], FALSE)
 
@@ -41,22 +42,24 @@ MSetDefault == (\E o \in DOMAIN objs : XSetDefault(o)) /\ Keep
 MDel        == (\E o \in DOMAIN objs : XDel(o)) /\ Keep
 MPop        == (\E o \in DOMAIN objs : XPop(o)) /\ Keep
 MUpdate     == (\E o \in DOMAIN objs : XUpdate(o)) /\ Keep
+MUpdateFail == (\E o \in DOMAIN objs : XUpdateFail(o)) /\ Keep
 MClear      == (\E o \in DOMAIN objs : Clear(o)) /\ Keep
 MCopy       == (\E o \in DOMAIN objs : Copy(o)) /\ Keep
 MResolve    == (\E o \in DOMAIN objs : XResolve(o)) /\ Keep
 MCInit == Init /\ h = <<>>
-MCNext == MSet \/ MSetDefault \/ MDel \/ MPop \/ MUpdate \/ MClear \/ MCopy \/ MResolve
+MCNext == MSet \/ MSetDefault \/ MDel \/ MPop \/ MUpdate \/ MUpdateFail \/ MClear \/ MCopy \/ MResolve
 
 ASet        == (\E o \in DOMAIN objs : XSet(o)) /\ Log
 ASetDefault == (\E o \in DOMAIN objs : XSetDefault(o)) /\ Log
 ADel        == (\E o \in DOMAIN objs : XDel(o)) /\ Log
 APop        == (\E o \in DOMAIN objs : XPop(o)) /\ Log
 AUpdate     == (\E o \in DOMAIN objs : XUpdate(o)) /\ Log
+AUpdateFail == (\E o \in DOMAIN objs : XUpdateFail(o)) /\ Log
 AClear      == (\E o \in DOMAIN objs : Clear(o)) /\ Log
 ACopy       == (\E o \in DOMAIN objs : Copy(o)) /\ Log
 AResolve    == (\E o \in DOMAIN objs : XResolve(o)) /\ Log
 (* resolutions are what is observable: give them half of the steps *)
-SimNext == ASet \/ ASetDefault \/ ADel \/ APop \/ AUpdate \/ AClear \/ ACopy \/ AResolve
+SimNext == ASet \/ ASetDefault \/ ADel \/ APop \/ AUpdate \/ AUpdateFail \/ AClear \/ ACopy \/ AResolve
 
 MCIndependent == [][\A o \in DOMAIN objs : (last'.op \notin {"copy"} /\ last'.o # o) => objs'[o] = objs[o]]_<<vars, h>>
 
@@ -71,10 +74,11 @@ FSetDefault == (\E o \in DOMAIN objs : XSetDefault(o)) /\ LogFull
 FDel        == (\E o \in DOMAIN objs : XDel(o)) /\ LogFull
 FPop        == (\E o \in DOMAIN objs : XPop(o)) /\ LogFull
 FUpdate     == (\E o \in DOMAIN objs : XUpdate(o)) /\ LogFull
+FUpdateFail == (\E o \in DOMAIN objs : XUpdateFail(o)) /\ LogFull
 FClear      == (\E o \in DOMAIN objs : Clear(o)) /\ LogFull
 FCopy       == (\E o \in DOMAIN objs : Copy(o)) /\ LogFull
 FResolve    == (\E o \in DOMAIN objs : XResolve(o)) /\ LogFull
 FInit == Init /\ h = <<[call |-> last, maps |-> [o \in DOMAIN objs |-> objs[o].map], ds |-> NoDs]>>
-FNext == FSet \/ FSetDefault \/ FDel \/ FPop \/ FUpdate \/ FClear \/ FCopy \/ FResolve \/ FResolve \/ FResolve
+FNext == FSet \/ FSetDefault \/ FDel \/ FPop \/ FUpdate \/ FUpdateFail \/ FClear \/ FCopy \/ FResolve \/ FResolve \/ FResolve
 EmitFull == (Len(h) = Depth + 1) => PrintT(ToJson([ev |-> h]))
 =============================================================================
